@@ -39,6 +39,18 @@ type GBox struct {
 // GRoot reaches the graph through a slice, so that the type can be pointerified (see finding D3).
 type GRoot struct {
 	Nodes []*GNode
+	Extra *[]*GNode // a user-declared pointer whose pointerified type is its own type; it reaches the same graph
+}
+
+// gRootSharing: the two fields of a root reach the very same node
+func gRootSharing(kind string, v *GRoot) []string {
+	if v.Extra == nil || len(*v.Extra) != 1 || len(v.Nodes) != 1 {
+		return []string{kind + ": the view lost the second reference to the graph"}
+	}
+	if (*v.Extra)[0] != v.Nodes[0] {
+		return []string{kind + ": references that were identical in the input (Nodes[0], (*Extra)[0]) are different objects in the result"}
+	}
+	return nil
 }
 
 type gRef struct {
@@ -337,7 +349,7 @@ func runGraphCase(c gCase) (mis []string) {
 	cp, _ := dials.VerifDeepCopy(root).(*GNode)
 	mis = append(mis, gJudge("deep copier", root, cp)...)
 	// through Config and View (defaults), and through a source value that is re-stacked
-	d, err := dials.Config(context.Background(), &GRoot{Nodes: []*GNode{root}})
+	d, err := dials.Config(context.Background(), &GRoot{Nodes: []*GNode{root}, Extra: &[]*GNode{root}})
 	if err != nil {
 		mis = append(mis, "Config failed: "+err.Error())
 		return
@@ -348,6 +360,7 @@ func runGraphCase(c gCase) (mis []string) {
 		return
 	}
 	mis = append(mis, gJudge("Config+View", root, v.Nodes[0])...)
+	mis = append(mis, gRootSharing("Config+View", v)...)
 	// the graph as a source's value, stacked at Config time and re-stacked when the source reports it again
 	ctx, cancel := context.WithCancel(context.Background())
 	defer cancel()
@@ -363,6 +376,7 @@ func runGraphCase(c gCase) (mis []string) {
 		return
 	}
 	mis = append(mis, gJudge("source value", root, v1.Nodes[0])...)
+	mis = append(mis, gRootSharing("source value", v1)...)
 	rctx, rcancel := context.WithTimeout(ctx, 20*time.Second)
 	defer rcancel()
 	if err := src.wa.BlockingReportNewValue(rctx, src.value()); err != nil {
@@ -375,6 +389,7 @@ func runGraphCase(c gCase) (mis []string) {
 		return
 	}
 	mis = append(mis, gJudge("re-stacked source value", root, v2.Nodes[0])...)
+	mis = append(mis, gRootSharing("re-stacked source value", v2)...)
 	mis = append(mis, gJudge("successive versions", v1.Nodes[0], v2.Nodes[0])...)
 	return mis
 }
@@ -389,6 +404,7 @@ type gSrc struct {
 func (g *gSrc) value() reflect.Value {
 	out := reflect.New(g.typ.Type()).Elem()
 	out.FieldByName("Nodes").Set(reflect.ValueOf([]*GNode{g.root}))
+	out.FieldByName("Extra").Set(reflect.ValueOf(&[]*GNode{g.root}))
 	return out
 }
 func (g *gSrc) Value(_ context.Context, t *dials.Type) (reflect.Value, error) {
